@@ -984,9 +984,10 @@ def install(prog):
     def _(I, a, c): return I.deref(a[0]).f[0]
 
     install_maps(prog)
-    import models_regex, models_env
+    import models_regex, models_env, models_os
     models_regex.install(prog)
     models_env.install(prog)
+    models_os.install(prog)
 
 def index_model(I, a, c):
     d = I.deref(a[0]); idx = I.deref(a[1])
